@@ -43,6 +43,10 @@ func (s *Server) filterDNSRequest(dctx *dnsContext) (res *filtering.Result, err 
 		// original question is readded in processFilteringAfterResponse.
 		dctx.origQuestion = q
 		req.Question[0].Name = dns.Fqdn(res.CanonName)
+
+		// The name to resolve has changed, so it must be decided anew whether
+		// it belongs to the DHCP server.
+		dctx.isDHCPHost = s.dhcpHostFromRequest(&req.Question[0]) != ""
 	case res.IsFiltered:
 		log.Debug("dnsforward: host %q is filtered, reason: %q", host, res.Reason)
 		pctx.Res = s.genDNSFilterMessage(pctx, res)
